@@ -140,3 +140,34 @@ Inductive method_body : list instr -> Prop :=
 
 Definition init_machine (ic : option cfgid) (dbg : bool) (progs : list (list instr)) : machine :=
   (init_shared ic dbg, map new_thread progs).
+
+(* ---- the tie to the source (C07): source-level events, as tools/genconc extracts them from
+   middleware.go on every run (coq/Gen/ConcSrc.v), and the event shape of each modelled program ---- *)
+Inductive wkind := WReconf | WSet | WOther.
+Inductive gev :=
+| GRLock | GRUnlock | GLock | GUnlock
+| GReadIcfg | GReadDebug
+| GWriteIcfg
+| GWriteDebug (k : wkind)          (* WReconf: cfg != nil && m.debug;  WSet: b && m.icfg != nil *)
+| GOther                           (* anything that touches neither the lock nor the shared fields (collapsed) *)
+| GDefer | GGo | GLoop.            (* constructs the model does not cover: their presence breaks the tie *)
+
+Definition ev_of (i : instr) : gev :=
+  match i with
+  | IRLock => GRLock | IRUnlock => GRUnlock | ILock => GLock | IUnlock => GUnlock
+  | IReadIcfg => GReadIcfg | IReadDebug => GReadDebug
+  | IWriteIcfg _ => GWriteIcfg
+  | IWriteDebugReconf _ => GWriteDebug WReconf
+  | IWriteDebugSet _ => GWriteDebug WSet
+  | IUse => GOther
+  end.
+
+(* consecutive GOther collapse into one, as in the translator *)
+Fixpoint collapse (l : list gev) : list gev :=
+  match l with
+  | GOther :: ((GOther :: _) as r) => collapse r
+  | x :: r => x :: collapse r
+  | [] => []
+  end.
+
+Definition shape (p : list instr) : list gev := collapse (map ev_of p).
